@@ -14,14 +14,28 @@ HARNESSES = []
 for h, d in [('EOL', 'eol() true iff CR LF both delivered; no read beyond the delivered bytes'), ('NEXT', 'next() never reads beyond the delivered bytes'),
              ('ADVANCE', 'advance(count) exact'), ('BASIC', 'eof/remaining/current/offset/diff'), ('RESET', 'StreamCursor::reset'), ('RAW', 'match_raw'), ('STRING', 'match_string, both case modes'),
              ('LITERAL', 'match_literal'), ('UNTIL', 'match_until (1-2 delimiters)'), ('SKIPWS', 'skip_whitespaces'), ('DOUBLE', 'match_double inside a CRLF-terminated value: strtod scanner stays inside the buffer')]:
-    HARNESSES.append(dict(name='cursor_' + h.lower(), units=['cursor'], file='c03_cursor.c', defs={'H_' + h: None, 'N': 6}, unwind=9,
-        thorough=dict(defs={'H_' + h: None, 'N': 12}, unwind=15),
+    HARNESSES.append(dict(name='cursor_' + h.lower(), units=['cursor'], file='c03_cursor.c', defs=dict({'H_' + h: None, 'N': 6}, **({'PATMAX': 6} if h == 'STRING' else {})), unwind=9,
+        thorough=dict(defs=dict({'H_' + h: None, 'N': 12}, **({'PATMAX': 12} if h == 'STRING' else {})), unwind=15),
         bound='every buffer of n <= 6 (thorough 12) bytes in an exact-size heap block x every cursor position', desc=d,
         replay=REAL, tv=None if h == 'DOUBLE' else dict(real=[STREAM], n=200)))
+# the cookie and media-type parsers (units and harnesses of C17 / C18): memory safety, termination and "only the documented exceptions" on exact-size blocks
+import importlib.util as _iu, os as _os
+def _load(pid):
+    sp = _iu.spec_from_file_location('prop_' + pid + '_for_C03', _os.path.join(_os.path.dirname(_os.path.abspath(__file__)), pid + '.py'))
+    m = _iu.module_from_spec(sp); sp.loader.exec_module(m); return m
+_c17, _c18 = _load('C17'), _load('C18')
+UNITS['cookie'] = _c17.UNITS['cookie']; UNITS['mime'] = _c18.UNITS['mime']
+OFFSETS = ['harness/offsets_http.cc']
+_pick = {'jar_n5': ('quick', 'thorough'), 'fromraw_n7': ('quick', 'thorough'), 'fromraw_maxage': ('quick', 'thorough'), 'parse_n8': ('quick', 'thorough'),
+         'jar_n8': ('thorough',), 'jar_n10': ('thorough',), 'fromraw_n10': ('thorough',), 'parse_n11': ('thorough',), 'parse_n3': ('thorough',)}
+for _h in _c17.HARNESSES + _c18.HARNESSES:
+    if _h['name'] in _pick:
+        _g = dict(_h); _g['tiers'] = _pick[_h['name']]; _g['witness'] = _h['name'] in ('fromraw_n7', 'parse_n8'); HARNESSES.append(_g)
 ASSUMPTIONS = [
   'encoding: clang++-14 -O1 IR translated to C by engine/ir2c.py; inlined libstdc++ streambuf accessors are real code',
   'model: std::basic_streambuf virtuals showmanyc/underflow/uflow of a plain get-area buffer (return 0 / eof)',
   'model: libc tolower (C locale), memcmp/strncmp (range/sequential readers), strtod as a byte scanner with uninterpreted value',
 ]
+ASSUMPTIONS += ['cookie / media-type parser harnesses: as listed for C17 / C18 (sel mode, ghost containers, cursor contracts proven by the cursor kernels of this same run)']
 OUTSIDE = ['server-level clauses (4xx/5xx on the wire, other connections keep being served): sockets and event loop',
            'buffers longer than the stated bounds']
